@@ -4,6 +4,7 @@ import (
 	"bytes"
 	"encoding/json"
 	"fmt"
+	"path/filepath"
 	"sort"
 	"strconv"
 	"strings"
@@ -131,11 +132,46 @@ func (p c12) Gen(t *rapid.T, env *Env) (*Case, []*Out) {
 			return out
 		}
 	}
+	// a TWIN: the last argument exists a second time under another name (<stem>_tw<ext>, same bytes) and is given as one
+	// more argument. Two names, one content - whether the two names are two files or two hard links to one file
+	// (pnpm, ostree, cp -al, jdupes -L make such trees) is not content: the perturbation "hardlink" turns the copy
+	// into a link and the bytes must stay what they were (seeded change s81: files identified by os.SameFile).
+	var twinOf *SFile
+	twinBase, hard := "", false
+	if afs := argFiles(w, args); !stdin && !collide && !casedup && len(afs) == len(args) && len(afs) > 0 && rapid.IntRange(0, 5).Draw(t, "twin") == 0 {
+		if f := afs[len(afs)-1]; f.URL == "" {
+			twinOf = f
+			ext := filepath.Ext(f.Base)
+			twinBase = strings.TrimSuffix(f.Base, ext) + "_tw" + ext
+		}
+	}
+	withTwin := func(prefix string, sp simrt.Spec) simrt.Spec {
+		if twinOf == nil {
+			return sp
+		}
+		orig := MapAbs(prefix, w.Root, filepath.Join(w.Root, twinOf.Rel()))
+		for _, n := range sp.FS {
+			if n.Path == orig && n.Kind == "f" {
+				tw := simrt.Node{Path: filepath.Join(filepath.Dir(orig), twinBase), Kind: "f", Data: n.Data}
+				if hard {
+					tw = simrt.Node{Path: tw.Path, Kind: "h", Target: orig}
+				}
+				sp.FS = append(sp.FS, tw)
+				last := sp.Args[len(sp.Args)-1]
+				sp.Args = append(sp.Args, filepath.Join(filepath.Dir(last), twinBase))
+				if strings.HasPrefix(last, "./") {
+					sp.Args[len(sp.Args)-1] = "./" + sp.Args[len(sp.Args)-1]
+				}
+				break
+			}
+		}
+		return sp
+	}
 	c := &Case{Prop: "C12"}
 	meta := c12Meta{Feat: w.Feat}
 	mkSpec := func(prefix string, ko *KeyOrder, a []string) simrt.Spec {
 		if !stdin {
-			return w.Spec(prefix, ko, a)
+			return withTwin(prefix, w.Spec(prefix, ko, a))
 		}
 		f := argFiles(w, args)[0]
 		var k *KeyOrder
@@ -170,6 +206,10 @@ func (p c12) Gen(t *rapid.T, env *Env) (*Case, []*Out) {
 		var ko *KeyOrder
 		var kinds []string
 		mode := rapid.IntRange(0, 11).Draw(t, "mode")
+		hard = false
+		if twinOf != nil && rapid.IntRange(0, 2).Draw(t, "hardlink") == 0 {
+			mode = 12
+		}
 		vargs := args
 		sp := simrt.Spec{}
 		var stale []simrt.Node
@@ -269,6 +309,9 @@ func (p c12) Gen(t *rapid.T, env *Env) (*Case, []*Out) {
 					stale = append(stale, simrt.Node{Path: n, Kind: "f", Data: old})
 				}
 				kinds = append(kinds, "rerun")
+			case 12:
+				hard = true
+				kinds = append(kinds, "hardlink")
 			case 9:
 				// everything at once
 				sp.MapDefault = "reverse"
@@ -305,6 +348,7 @@ func (p c12) Gen(t *rapid.T, env *Env) (*Case, []*Out) {
 		meta.Kinds = append(meta.Kinds, label)
 		outs = append(outs, env.Exec(&c.Runs[len(c.Runs)-1].Spec))
 	}
+	hard = false
 	// identical spec again, in processes that really run in parallel (GOMAXPROCS 4 and 16)
 	for _, procs := range []string{"4", "16"} {
 		c.Runs = append(c.Runs, Run{Label: "repeat:procs", Spec: mkSpec("", nil, args), Procs: procs})
